@@ -384,6 +384,18 @@ Section TlruBridge.
                   (fun s e _ => g_step_ok s e) h (ttll_init cap ttl)) as Q.
     rewrite <- tt_run_is_run_res, D in Q. apply req_ok. apply Q. clear. induction h; constructor; auto.
   Qed.
+
+  (* ---- the constructor, translated (member initialisers + body): it builds the literal machine's initial state,
+     so the whole-history theorem starts from what the source constructs ---- *)
+  (* tt_ttl is the uniform TTL of utlru_cache; tlru_cache has no such member and never reads it *)
+  Lemma g_init_ok (cap : nat) : (g_init cap : ttll K V) = ttll_init cap 0.
+  Proof. reflexivity. Qed.
+  Theorem generated_tlru_constructed_no_UB_on_any_history : forall cap (h : list (ev K V)),
+      1 <= cap -> mono_from 0 h ->
+      exists l', run_res g_step (g_init cap) h = Ok (l', snd (run tl_step (tl_init false cap 0) h)) /\
+                 tt_rep false l' (fst (run tl_step (tl_init false cap 0) h)).
+  Proof. intros cap h Hc Hm. rewrite g_init_ok. apply generated_tlru_no_UB_on_any_history; auto. Qed.
 End TlruBridge.
 
 Print Assumptions generated_tlru_no_UB_on_any_history.
+Print Assumptions generated_tlru_constructed_no_UB_on_any_history.
